@@ -153,6 +153,7 @@ type vClient struct {
 	eof     bool // the broker closed the connection
 	reading bool
 	autoAck bool
+	gate    chan struct{} // non-nil: the reader parks here before reading the next packet
 	nextID  uint16
 	connack byte
 }
@@ -189,6 +190,12 @@ func (c *vClient) startReading() {
 	c.reading = true
 	go func() {
 		for {
+			c.mu.Lock()
+			g := c.gate
+			c.mu.Unlock()
+			if g != nil {
+				<-g
+			}
 			p, err := packets.ReadPacket(c.conn)
 			if err != nil {
 				c.mu.Lock()
@@ -221,6 +228,27 @@ func (c *vClient) send(p packets.ControlPacket) error {
 	default:
 		return fmt.Errorf("write not consumed by the broker")
 	}
+}
+
+// stopReading makes the client stop reading from its connection (the reader, which is blocked inside a read,
+// parks after the next packet: a PINGREQ is sent to have that packet arrive); resumeReading undoes it.
+func (c *vClient) stopReading() {
+	c.mu.Lock()
+	c.gate = make(chan struct{})
+	c.mu.Unlock()
+	c.send(packets.NewControlPacket(packets.Pingreq))
+	synctest.Wait()
+}
+
+func (c *vClient) resumeReading() {
+	c.mu.Lock()
+	g := c.gate
+	c.gate = nil
+	c.mu.Unlock()
+	if g != nil {
+		close(g)
+	}
+	synctest.Wait()
 }
 
 // take returns and clears what has been received.
